@@ -13,14 +13,14 @@ import (
 )
 
 type Region struct {
-	Key      string
-	Sym      string
-	Sort     string // SMT sort of the region term
-	Kind     string // field cell elem mapdom mapval maplen global alloc iter ghost
-	ValSort  string
-	KeySort  string
+	Key       string
+	Sym       string
+	Sort      string // SMT sort of the region term
+	Kind      string // field cell elem mapdom mapval maplen global alloc iter ghost
+	ValSort   string
+	KeySort   string
 	StructTag int
-	versions int
+	versions  int
 }
 
 type Heap map[string]string
@@ -43,26 +43,26 @@ type Loc struct {
 }
 
 type Obligation struct {
-	witness    *Witness      // class W: the recorded input that failed again
+	witness    *Witness // class W: the recorded input that failed again
 	witnessOut witnessResult
-	Name      string
-	Class     string
-	Func      string
-	Pos       string
-	Props     []string
-	PC        string
-	Goal      string
-	MustBeSat bool
-	Src       string
-	nAsserts  int
-	nDecls    int
-	gen       *Gen
-	Extra     []string // extra assertions local to this obligation
-	Result    *SolveResult
-	File      string
-	Known     bool
-	Axioms    []string
-	Parts     int
+	Name       string
+	Class      string
+	Func       string
+	Pos        string
+	Props      []string
+	PC         string
+	Goal       string
+	MustBeSat  bool
+	Src        string
+	nAsserts   int
+	nDecls     int
+	gen        *Gen
+	Extra      []string // extra assertions local to this obligation
+	Result     *SolveResult
+	File       string
+	Known      bool
+	Axioms     []string
+	Parts      int
 	FailedPart string
 }
 
@@ -96,74 +96,77 @@ func cloneInv(m map[string]string) map[string]string {
 }
 
 type loopInfo struct {
-	header  *ssa.BasicBlock
-	body    map[*ssa.BasicBlock]bool
-	ordinal int
-	spec    *LoopSpec
-	entryHeap Heap
+	header     *ssa.BasicBlock
+	body       map[*ssa.BasicBlock]bool
+	ordinal    int
+	spec       *LoopSpec
+	entryHeap  Heap
 	iterRegion string
-	decEntry string
-	headInv  map[string]string
+	decEntry   string
+	headInv    map[string]string
 }
 
 type callRecord struct {
-	callee  string
-	n       int
-	pre     Heap
-	post    Heap
-	results []string
+	callee   string
+	n        int
+	pre      Heap
+	post     Heap
+	results  []string
 	resTypes []types.Type
-	pcAfter string
-	args    map[string]EnvVal
+	pcAfter  string
+	args     map[string]EnvVal
 }
 
 type Gen struct {
-	eng       *Engine
-	fn        *ssa.Function
-	con       *Contract
-	fname     string
-	decls     []string
-	declSet   map[string]bool
-	asserts   []string
-	regions   map[string]*Region
-	vals      map[ssa.Value]string
-	locs      map[ssa.Value]*Loc
-	tuples    map[ssa.Value][]string
-	in        map[*ssa.BasicBlock]*BState
-	out       map[*ssa.BasicBlock]*BState
-	obls      []*Obligation
-	strLits   map[string]string
-	nfresh    int
-	entryHeap Heap
-	props     []string
-	loops     map[*ssa.BasicBlock]*loopInfo
-	backEdge  map[[2]int]bool
-	anchors   map[string]int
-	fatal     []string
-	imprecise []string
-	debugNames map[*ssa.BasicBlock]map[string]ssa.Value
-	debugAddrs map[*ssa.BasicBlock]map[string]*ssa.Alloc
-	calls     []*callRecord
-	callCount map[string]int
-	allocs    map[ssa.Value]bool
-	npc       int
+	sitePCs     map[string][]string          // call label -> path conditions under which the call is executed (covers clauses)
+	siteBlocks  map[string][]*ssa.BasicBlock // call label -> blocks of those calls
+	deferred    []func()                     // obligations that need the whole function processed first (covers clauses)
+	eng         *Engine
+	fn          *ssa.Function
+	con         *Contract
+	fname       string
+	decls       []string
+	declSet     map[string]bool
+	asserts     []string
+	regions     map[string]*Region
+	vals        map[ssa.Value]string
+	locs        map[ssa.Value]*Loc
+	tuples      map[ssa.Value][]string
+	in          map[*ssa.BasicBlock]*BState
+	out         map[*ssa.BasicBlock]*BState
+	obls        []*Obligation
+	strLits     map[string]string
+	nfresh      int
+	entryHeap   Heap
+	props       []string
+	loops       map[*ssa.BasicBlock]*loopInfo
+	backEdge    map[[2]int]bool
+	anchors     map[string]int
+	fatal       []string
+	imprecise   []string
+	debugNames  map[*ssa.BasicBlock]map[string]ssa.Value
+	debugAddrs  map[*ssa.BasicBlock]map[string]*ssa.Alloc
+	calls       []*callRecord
+	callCount   map[string]int
+	allocs      map[ssa.Value]bool
+	npc         int
 	selectProps map[string]bool
-	rangeOf   map[ssa.Value]*ssa.Range
+	rangeOf     map[ssa.Value]*ssa.Range
 	curInstrPos token.Pos
-	modTargets map[string][]string // region -> declared target ref terms; "*" wholesale
+	modTargets  map[string][]string // region -> declared target ref terms; "*" wholesale
 	hasModifies bool
-	retCount  int
+	retCount    int
 	usedTrusted map[string]bool
 	singleDefs  map[types.Object]ssa.Value
 	callGuard   string // guard of the alternative of a dynamic call being processed
-	entryAlloc string
-	axioms    []*axiomText
-	usedGInv  bool
-	defers    []*ssa.Defer
-	nq        int
-	nqid      int
-	touched   map[string]bool
-	callOrd   map[string]map[ssa.Instruction]int
+	entryAlloc  string
+	axioms      []*axiomText
+	usedGInv    bool
+	defers      []*ssa.Defer
+	nq          int
+	nqid        int
+	touched     map[string]bool
+	callOrd     map[string]map[ssa.Instruction]int
 }
 
 func (g *Gen) fatalf(f string, a ...interface{}) {
@@ -706,6 +709,91 @@ func (g *Gen) Generate() {
 				g.fatalf("callsite clause %s names call %s, which does not occur (contract without subject)", cl.Name, cl.Label)
 			}
 		}
+		for _, cl := range g.con.Covers {
+			for _, lb := range strings.Split(cl.Label, "|") {
+				if len(g.siteBlocks[lb]) == 0 {
+					g.fatalf("covers clause %s names call %s, which does not occur (contract without subject)", cl.Name, lb)
+				}
+			}
+		}
+	}
+	for _, f := range g.deferred {
+		f()
+	}
+	g.deferred = nil
+}
+
+// noteSite records that the call labelled label is executed in state st (under guard, for one candidate of a
+// dynamic call): covers clauses compare the end of an iteration against these path conditions.
+func (g *Gen) noteSite(label string, st *BState, in ssa.Instruction, guard string) {
+	if g.con == nil || len(g.con.Covers) == 0 {
+		return
+	}
+	if g.sitePCs == nil {
+		g.sitePCs = map[string][]string{}
+		g.siteBlocks = map[string][]*ssa.BasicBlock{}
+	}
+	pc := st.pc
+	if guard != "" && guard != "true" {
+		pc = fmt.Sprintf("(and %s %s)", pc, guard)
+	}
+	g.sitePCs[label] = append(g.sitePCs[label], pc)
+	g.siteBlocks[label] = append(g.siteBlocks[label], in.Block())
+}
+
+// innermostLoop: the smallest natural loop whose body contains b (nil: b is in no loop).
+func (g *Gen) innermostLoop(b *ssa.BasicBlock) *loopInfo {
+	var best *loopInfo
+	for _, li := range g.loops {
+		if li.body[b] && (best == nil || len(li.body) < len(best.body)) {
+			best = li
+		}
+	}
+	return best
+}
+
+// deferCovers: `covers LABEL name: cond` -- at the end point described by st (a back edge of loop li leaving block b,
+// or a return when li is nil), cond implies that the call LABEL was executed on the way (since the loop head / the
+// function entry). Path conditions are definitional, so "was executed" is the disjunction of the call's path conditions.
+func (g *Gen) deferCovers(li *loopInfo, b *ssa.BasicBlock, st *BState, pos string) {
+	if g.con == nil || len(g.con.Covers) == 0 {
+		return
+	}
+	snap := &BState{heap: st.heap.clone(), pc: st.pc, inv: cloneInv(st.inv), prev: cloneInv(st.prev)}
+	for _, cl := range g.con.Covers {
+		cl := cl
+		g.deferred = append(g.deferred, func() {
+			labels := strings.Split(cl.Label, "|") // alternatives: one of these calls is executed
+			blocks := g.siteBlocks[labels[0]]
+			if len(blocks) == 0 {
+				return
+			}
+			if g.innermostLoop(blocks[0]) != li {
+				return
+			}
+			env := g.baseEnv(snap.heap, g.entryHeap)
+			params := env.vars
+			env.vars = map[string]EnvVal{}
+			g.namedValues(b, env)
+			for n, ev := range params {
+				if _, ok := env.vars[n]; !ok {
+					env.vars[n] = ev
+				}
+			}
+			g.addrNames(b, true, env)
+			cond := g.trBool(cl.Expr, env, cl)
+			site := "false"
+			var pcs []string
+			for _, lb := range labels {
+				pcs = append(pcs, g.sitePCs[lb]...)
+			}
+			if len(pcs) == 1 {
+				site = pcs[0]
+			} else if len(pcs) > 1 {
+				site = "(or " + strings.Join(pcs, " ") + ")"
+			}
+			g.addObl(snap, "A", "covers:"+cl.Label+":"+cl.Name, pos, g.clauseProps(cl, g.allProps()), fmt.Sprintf("(=> %s %s)", cond, site), cl.Src)
+		})
 	}
 }
 
@@ -1197,6 +1285,7 @@ func (g *Gen) backEdgeObls(b, h *ssa.BasicBlock, st *BState) {
 	}
 	{
 		_, pos := g.anchorForLoop(li)
+		g.deferCovers(li, b, est, pos)
 		// the loop head assumed the invariant instance over the havocked heap; the back edge must re-establish it
 		g.checkPkgInvsAgainst(est, "I.pres", fmt.Sprintf("loop%d:pkginv:", li.ordinal), pos, "true", li.headInv)
 	}
